@@ -7,7 +7,7 @@
    (`vexpr`), the tree satisfies the visitor's side conditions and the
    visitor maps it back to the very same object.                            *)
 From Coq Require Import NArith ZArith List String Bool Lia.
-From V Require Import Model.PatternSyntax Proofs.PatternNumbers Proofs.PatternLit Proofs.PatternPath
+From V Require Import Model.PatternSyntax Spec.PatternSpec Proofs.PatternR Proofs.PatternNumbers Proofs.PatternLit Proofs.PatternPath
   Proofs.PatternCmp Proofs.PatternObs Proofs.PatternEscape Proofs.PatternTokens Proofs.PatternMeaning
   Proofs.PatternUnvConst Proofs.PatternUnvPath.
 Import ListNotations.
@@ -16,38 +16,10 @@ Open Scope N_scope.
 (* ------------------------------------------------------------------ *)
 (** * Printable objects *)
 
-Definition is_string (c : aconst) : bool := match c with CString _ _ => true | _ => false end.
-Definition not_bool (c : aconst) : bool := match c with CBool _ => false | _ => true end.
 
-Definition rhs_ok (cls : cmpcls) (rhs : aconst) : bool :=
-  match cls, rhs with
-  | KlEq, CList l | KlIn, CList l => forallb const_ok l
-  | KlIn, _ => false
-  | KlEq, c => const_ok c
-  | (KlGt | KlLt | KlGe | KlLe), c => const_ok c && not_bool c
-  | (KlLike | KlMatches | KlSubset | KlSuperset), c => const_ok c && is_string c
-  end.
 
-Definition nonneg_int (c : aconst) : bool := match c with CInt z => (0 <=? z)%Z | _ => false end.
-Definition pos_float (c : aconst) : bool := match c with CFloat f => const_ok c && negb (f_neg f) | _ => false end.
-Definition is_ts (c : aconst) : bool := match c with CTimestamp _ => true | _ => false end.
 
-Definition aqual_ok (q : aqual) : bool :=
-  match q with
-  | AQRepeat c => nonneg_int c
-  | AQWithin c => nonneg_int c || pos_float c
-  | AQStartStop a b => const_ok a && is_ts a && const_ok b && is_ts b
-  end.
 
-Fixpoint aprint (a : aexpr) : bool :=
-  match a with
-  | ECmp cls lhs rhs _ => apath_ok lhs && rhs_ok cls rhs
-  | EBool _ ops => forallb aprint ops
-  | EObs x => aprint x
-  | ECompound _ ops => forallb aprint ops
-  | EParen x => aprint x
-  | EQualified x q => aprint x && aqual_ok q
-  end.
 
 (* ------------------------------------------------------------------ *)
 (** * Reading a result of unv at its own grammar level *)
@@ -144,22 +116,8 @@ Proof. intros [y|y|y|y] x E; cbn in E; inversion E; reflexivity. Qed.
 (* ------------------------------------------------------------------ *)
 (** * Levels, root types and the visitor's shape, on the object model *)
 
-Inductive alevel := LPt | LAnd | LOr | LObs | LOAnd | LOOr | LOFb.
 
-Definition is_cmp_level (l : alevel) : bool := match l with LPt | LAnd | LOr => true | _ => false end.
 
-Fixpoint level (a : aexpr) : alevel :=
-  match a with
-  | ECmp _ _ _ _ => LPt
-  | EBool true _ => LAnd
-  | EBool false _ => LOr
-  | EObs _ => LObs
-  | ECompound OpAnd _ => LOAnd
-  | ECompound OpOr _ => LOOr
-  | ECompound OpFb _ => LOFb
-  | EParen x => if is_cmp_level (level x) then LPt else LObs
-  | EQualified _ _ => LObs
-  end.
 
 Definition u_level (u : ucst) : alevel :=
   match u with
@@ -167,72 +125,23 @@ Definition u_level (u : ucst) : alevel :=
   | UObs (AO_obs _) => LObs | UObs (AO_and _) => LOAnd | UObs (AO_or _) => LOOr | UObs (AO_fb _) => LOFb
   end.
 
-Definition level_eqb (a b : alevel) : bool :=
-  match a, b with
-  | LPt, LPt | LAnd, LAnd | LOr, LOr | LObs, LObs | LOAnd, LOAnd | LOOr, LOOr | LOFb, LOFb => true
-  | _, _ => false
-  end.
 Lemma level_eqb_eq : forall a b, level_eqb a b = true -> a = b.
 Proof. intros [] []; cbn; intros H; try discriminate; reflexivity. Qed.
 
-Fixpoint a_rt (a : aexpr) : list ustring :=
-  match a with
-  | ECmp _ lhs _ _ => [ap_type lhs]
-  | EParen x => a_rt x
-  | EBool isand ops =>
-      match ops with
-      | x1 :: x2 :: _ => if isand then set_inter (a_rt x1) (a_rt x2) else set_union (a_rt x1) (a_rt x2)
-      | _ => []
-      end
-  | _ => []
-  end.
 
-Definition vrhs (cls : cmpcls) (rhs : aconst) : bool :=
-  match cls, rhs with
-  | KlIn, CList l => forallb (fun c => const_ok c && const_canon c) l
-  | _, CList _ => false
-  | _, c => rhs_ok cls c && const_canon c
-  end.
 
-Definition left_level_ok (op : obsop) (l : alevel) : bool :=
-  match op, l with
-  | OpAnd, (LObs | LOAnd) => true
-  | OpOr, (LObs | LOAnd | LOOr) => true
-  | OpFb, (LObs | LOAnd | LOOr | LOFb) => true
-  | _, _ => false
-  end.
-Definition right_level_ok (op : obsop) (l : alevel) : bool :=
-  match op, l with
-  | OpAnd, LObs => true
-  | OpOr, (LObs | LOAnd) => true
-  | OpFb, (LObs | LOAnd | LOOr) => true
-  | _, _ => false
-  end.
+(* every intersection along an AND chain is non-empty *)
 
-Fixpoint vexpr (a : aexpr) : bool :=
-  match a with
-  | ECmp cls lhs rhs _ => vpath lhs && vrhs cls rhs
-  | EBool isand ops =>
-      forallb vexpr ops &&
-      forallb (fun x => if isand then level_eqb (level x) LPt
-                        else level_eqb (level x) LPt || level_eqb (level x) LAnd) ops &&
-      match ops with
-      | x1 :: x2 :: _ => if isand then negb (is_nil (set_inter (a_rt x1) (a_rt x2))) else true
-      | _ => false
-      end
-  | EObs x => vexpr x && is_cmp_level (level x)
-  | ECompound op ops =>
-      match ops with
-      | [x; y] => vexpr x && vexpr y && left_level_ok op (level x) && right_level_ok op (level y)
-      | _ => false
-      end
-  | EParen x => vexpr x
-  | EQualified x q => vexpr x && level_eqb (level x) LObs
-  end.
+
+
+
+(* the classes accepted the object: every AND has operands with a common object type *)
 
 Definition Good (a : aexpr) (u : ucst) : Prop :=
   u_wf u = true /\ u_yield u = toks_of (pr a) /\ u_meaning u = ma a /\ u_inv u /\ u_level u = level a /\
-  (vexpr a = true -> u_sem u = true /\ u_sv u = a /\ u_rt u = a_rt a).
+  u_rt u = a_rt a /\
+  (constructible a = true -> u_sem u = true) /\
+  (vexpr a = true -> u_sv u = a).
 
 Definition PGood (a : aexpr) : Prop := forall u, unv a = Some u -> aprint a = true -> Good a u.
 
@@ -279,7 +188,7 @@ Qed.
 
 Lemma unv_path_type : forall p op, unv_path p = Some op -> tx (op_type op) = ap_type p.
 Proof.
-  intros [ty comps] op H. unfold unv_path in H. cbn [ap_comps ap_type] in H.
+  intros [ty comps] op H. unfold PatternSyntax.unv_path in H. cbn [ap_comps ap_type] in H.
   destruct comps as [|c r]; [discriminate|]. inversion H; subst op. reflexivity.
 Qed.
 
@@ -289,7 +198,7 @@ Proof. intros c H. unfold const_tok. destruct c; try reflexivity. discriminate H
 Lemma toks_of_consts_ok : forall l, forallb const_ok l = true -> toks_of_consts l = Some (map const_tok l).
 Proof.
   induction l as [|c r IH]; intros H; [reflexivity|]. cbn [forallb] in H. apply andb_true_iff in H. destruct H as [Hc Hr].
-  cbn [toks_of_consts map]. rewrite (tok_of_const_leaf c Hc), (IH Hr). reflexivity.
+  cbn [PatternSyntax.toks_of_consts map]. rewrite (tok_of_const_leaf c Hc), (IH Hr). reflexivity.
 Qed.
 
 Lemma yield_set_consts : forall l, forallb const_ok l = true ->
@@ -334,7 +243,7 @@ Lemma toks_pr_cmp : forall cls lhs rhs neg,
   toks_of (pr (ECmp cls lhs rhs neg)) =
   toks_of (pr_path lhs) ++ opt_not neg ++ [cls_operator cls rhs] ++ toks_of (pr_const rhs).
 Proof.
-  intros cls lhs rhs neg. cbn [pr]. rewrite !toks_of_app. destruct neg; reflexivity.
+  intros cls lhs rhs neg. cbn [PatternSyntax.pr]. rewrite !toks_of_app. destruct neg; reflexivity.
 Qed.
 
 Lemma is_string_kind : forall c, const_ok c = true -> is_string c = true -> kind_in (const_tok c) [KString] = true.
@@ -345,29 +254,34 @@ Proof. intros t H. destruct (kind_single _ _ H) as [Hk _]. apply lit_sem_other; 
 
 Lemma cmp_good : forall cls lhs rhs neg, PGood (ECmp cls lhs rhs neg).
 Proof.
-  intros cls lhs rhs neg u U A. cbn [unv] in U. cbn [aprint] in A. apply andb_true_iff in A. destruct A as [Ap Ar].
+  intros cls lhs rhs neg u U A. cbn [PatternSyntax.unv] in U. cbn [aprint] in A. apply andb_true_iff in A. destruct A as [Ap Ar].
   destruct (unv_cmp cls lhs rhs neg) as [p|] eqn:E; [|discriminate]. inversion U; subst u; clear U.
-  unfold unv_cmp in E. destruct (unv_path_ok lhs Ap) as [op [Eo [Wp [Yp Mp]]]]. rewrite Eo in E.
+  unfold PatternSyntax.unv_cmp in E. destruct (unv_path_ok lhs Ap) as [op [Eo [Wp [Yp Mp]]]]. rewrite Eo in E.
   pose proof (unv_path_type lhs op Eo) as Ty.
   unfold Good. cbn [u_wf u_yield u_meaning u_inv u_level u_sem u_sv u_rt ac_wf ac_yield ac_meaning ac_inv ac_sem ac_sv ac_rt level].
   rewrite toks_pr_cmp.
-  assert (VP : vpath lhs = true -> path_sem op = true /\ sv_path_v op = lhs) by (intros V; apply (unv_path_back lhs op V Eo)).
+  assert (VP : vpath lhs = true -> sv_path_v op = lhs) by (intros V; apply (unv_path_back lhs op V Eo)).
+  pose proof (unv_path_sem lhs op Eo) as S1.
   (* the four shapes of the right-hand side *)
   assert (SetCase : forall l, rhs = CList l -> forallb const_ok l = true -> p = PTSet op neg (map const_tok l) ->
             (cls = KlEq \/ cls = KlIn) ->
             wf_pt p = true /\ yield_pt p = toks_of (pr_path lhs) ++ opt_not neg ++ [cls_operator cls rhs] ++ toks_of (pr_const rhs) /\
             mc_pt p = ma (ECmp cls lhs rhs neg) /\ True /\ LPt = LPt /\
-            (vexpr (ECmp cls lhs rhs neg) = true -> sem_pt p = true /\ sv_pt p = ECmp cls lhs rhs neg /\ rt_pt p = a_rt (ECmp cls lhs rhs neg))).
+            rt_pt p = a_rt (ECmp cls lhs rhs neg) /\
+            (constructible (ECmp cls lhs rhs neg) = true -> sem_pt p = true) /\
+            (vexpr (ECmp cls lhs rhs neg) = true -> sv_pt p = ECmp cls lhs rhs neg)).
   { intros l El Hl Ep Hc. subst rhs p. destruct (consts_wf l Hl) as [W1 [W2 W3]].
-    split; [cbn [wf_pt]; rewrite Wp, W1; reflexivity|]. split; [|split; [|split; [exact I|split; [reflexivity|]]]].
-    - cbn [yield_pt pr_const]. rewrite Yp, !toks_of_app, (yield_set_consts l Hl).
+    split; [cbn [wf_pt]; rewrite Wp, W1; reflexivity|]. split; [|split; [|split; [exact I|split; [reflexivity|split; [|split]]]]].
+    - cbn [yield_pt PatternSyntax.pr_const]. rewrite Yp, !toks_of_app, (yield_set_consts l Hl).
       assert (Op : cls_operator cls (CList l) = t_IN) by (destruct Hc; subst cls; reflexivity). rewrite Op.
       cbn [toks_of List.app]. reflexivity.
-    - cbn [mc_pt ma ma_const]. rewrite Mp, W3.
+    - cbn [mc_pt PatternSyntax.ma ma_const]. rewrite Mp, W3.
       assert (Op : ma_op cls (CList l) = MoIn) by (destruct Hc; subst cls; reflexivity). rewrite Op. reflexivity.
-    - intros V. cbn [vexpr] in V. apply andb_true_iff in V. destruct V as [V1 V2]. destruct (VP V1) as [S1 S2].
+    - cbn [rt_pt a_rt]. rewrite Ty. reflexivity.
+    - intros _. cbn [sem_pt]. rewrite S1, W2. reflexivity.
+    - intros V. cbn [vexpr] in V. apply andb_true_iff in V. destruct V as [V1 V2]. pose proof (VP V1) as S2.
       destruct Hc; subst cls; [discriminate V2|]. cbn [vrhs] in V2. destruct (consts_canon_back l V2) as [_ B].
-      cbn [sem_pt sv_pt rt_pt a_rt]. rewrite S1, W2, S2, B, Ty. repeat split; reflexivity. }
+      cbn [sv_pt]. rewrite S2, B. reflexivity. }
   destruct cls; destruct rhs as [v q|t|z|f|b|v|v|l]; cbn [rhs_ok] in Ar;
     try discriminate Ar; try (cbn [const_ok not_bool is_string andb] in Ar; rewrite ?andb_false_r in Ar; discriminate Ar);
     try (destruct (toks_of_consts l) as [ts|] eqn:Et; [|discriminate E];
@@ -388,13 +302,15 @@ Proof.
                      | match type of K with kind_in (const_tok ?c) _ = _ => rewrite (kinds_orderable c _ I K) end; reflexivity
                      | rewrite (is_string_kind _ Ho (proj2 (proj1 (andb_true_iff _ _) Ar))); reflexivity ]|].
   all: split; [cbn [yield_pt cls_operator strop_tok]; rewrite Yp; reflexivity|].
-  all: split; [cbn [mc_pt ma ma_op m_order_op m_strop tk t_EQ t_GT t_LT t_GE t_LE tkind_eqb negb xorb]; rewrite Mp, Mc;
+  all: split; [cbn [mc_pt PatternSyntax.ma ma_op m_order_op m_strop tk t_EQ t_GT t_LT t_GE t_LE tkind_eqb negb xorb]; rewrite Mp, Mc;
                try rewrite xorb_false_r; reflexivity|].
   all: split; [exact I|]. all: split; [reflexivity|].
-  all: intros V; cbn [vexpr] in V; apply andb_true_iff in V; destruct V as [V1 V2]; destruct (VP V1) as [S1 S2];
+  all: split; [cbn [rt_pt a_rt]; rewrite Ty; reflexivity|].
+  all: split; [intros _; cbn [sem_pt]; rewrite S1; try rewrite S; reflexivity|].
+  all: intros V; cbn [vexpr] in V; apply andb_true_iff in V; destruct V as [V1 V2]; pose proof (VP V1) as S2;
        cbn [vrhs] in V2; apply andb_true_iff in V2; destruct V2 as [_ V2];
-       cbn [sem_pt sv_pt rt_pt a_rt order_cls strop_cls tk t_EQ t_GT t_LT t_GE t_LE tkind_eqb negb xorb];
-       rewrite S1, S2, Ty, (const_canon_back _ Ho V2); try rewrite S; repeat split; try reflexivity; destruct neg; reflexivity.
+       cbn [sv_pt order_cls strop_cls tk t_EQ t_GT t_LT t_GE t_LE tkind_eqb negb xorb];
+       rewrite S2, (const_canon_back _ Ho V2); try reflexivity; destruct neg; reflexivity.
 Qed.
 
 (* ------------------------------------------------------------------ *)
@@ -412,29 +328,35 @@ Lemma chain_and_good : forall xs l0 p0 r,
   yield_and r = yield_and (CAnd l0 p0) ++ flat_map (fun y => t_AND :: toks_of (pr y)) xs /\
   mc_and_list r = mc_and_list (CAnd l0 p0) ++ map ma xs /\
   (exists l p, r = CAnd l p) /\
-  (forallb vexpr xs = true ->
-     (sem_and (CAnd l0 p0) = true -> sem_and r = true) /\
-     sv_and_ops r = sv_and_ops (CAnd l0 p0) ++ xs /\ rt_and r = rt_and (CAnd l0 p0)).
+  rt_and r = fold_left (fun s x => rt_step true s (a_rt x)) xs (rt_and (CAnd l0 p0)) /\
+  (forallb constructible xs = true -> sem_and (CAnd l0 p0) = true ->
+     rt_ok (rt_and (CAnd l0 p0)) (map a_rt xs) = true -> sem_and r = true) /\
+  (forallb vexpr xs = true -> sv_and_ops r = sv_and_ops (CAnd l0 p0) ++ xs).
 Proof.
   induction xs as [|x xs IH]; intros l0 p0 r HF HA HC.
-  - cbn [map chain_and] in HC. inversion HC; subst r. cbn [flat_map map]. rewrite !app_nil_r.
+  - cbn [map chain_and] in HC. inversion HC; subst r. cbn [flat_map map fold_left]. rewrite !app_nil_r.
     repeat split; try tauto. exists l0, p0. reflexivity.
   - inversion HF as [|? ? Hx HF']; subst. cbn [forallb] in HA. apply andb_true_iff in HA. destruct HA as [Ax Axs].
     cbn [map chain_and] in HC. destruct (as_cmp (unv x)) as [c|] eqn:Ec; [|discriminate].
     destruct (lift_pt c) as [p|] eqn:El; [|discriminate]. apply lift_pt_facts in El. subst c.
-    apply as_cmp_some in Ec. destruct (Hx _ Ec Ax) as [G1 [G2 [G3 [_ [_ G6]]]]].
-    cbn [u_wf u_yield u_meaning ac_wf ac_yield ac_meaning] in G1, G2, G3.
-    destruct (IH (CAnd l0 p0) p r HF' Axs HC) as [I1 [I2 [I3 [I4 I5]]]].
+    apply as_cmp_some in Ec. destruct (Hx _ Ec Ax) as [G1 [G2 [G3 [_ [_ [G6 [G7 G8]]]]]]].
+    cbn [u_wf u_yield u_meaning u_rt u_sem u_sv ac_wf ac_yield ac_meaning ac_rt ac_sem ac_sv] in G1, G2, G3, G6, G7, G8.
+    destruct (IH (CAnd l0 p0) p r HF' Axs HC) as [I1 [I2 [I3 [I4 [I5 [I6 I7]]]]]].
+    assert (Rt : rt_and (CAnd (CAnd l0 p0) p) = set_inter (rt_and (CAnd l0 p0)) (a_rt x)).
+    { change (rt_and (CAnd (CAnd l0 p0) p)) with (set_inter (rt_and (CAnd l0 p0)) (rt_pt p)). rewrite G6. reflexivity. }
     split; [intros W; apply I1; cbn [wf_and] in W |- *; rewrite W, G1; reflexivity|].
     split; [rewrite I2; cbn [yield_and flat_map]; rewrite G2, <- !app_assoc; reflexivity|].
     split; [rewrite I3; cbn [mc_and_list map]; rewrite G3, <- !app_assoc; reflexivity|].
     split; [exact I4|].
-    intros V. cbn [forallb] in V. apply andb_true_iff in V. destruct V as [Vx Vxs].
-    destruct (G6 Vx) as [S1 [S2 _]]. cbn [u_sem u_sv ac_sem ac_sv] in S1, S2.
-    destruct (I5 Vxs) as [J1 [J2 J3]].
-    split; [intros Sm; apply J1; cbn [sem_and] in Sm |- *; rewrite Sm, S1; reflexivity|].
-    split; [rewrite J2; cbn [sv_and_ops]; rewrite S2, <- !app_assoc; reflexivity|].
-    rewrite J3. reflexivity.
+    split; [rewrite I5, Rt; reflexivity|].
+    split.
+    + intros C Sm Rk. cbn [forallb] in C. apply andb_true_iff in C. destruct C as [Cx Cxs].
+      cbn [map rt_ok] in Rk. apply andb_true_iff in Rk. destruct Rk as [Rk1 Rk2].
+      apply I6; [exact Cxs| |rewrite Rt; exact Rk2].
+      change (sem_and (CAnd (CAnd l0 p0) p)) with (sem_and (CAnd l0 p0) && sem_pt p && negb (is_nil (set_inter (rt_and (CAnd l0 p0)) (rt_pt p)))).
+      rewrite Sm, (G7 Cx), G6. exact Rk1.
+    + intros V. cbn [forallb] in V. apply andb_true_iff in V. destruct V as [Vx Vxs].
+      rewrite (I7 Vxs). cbn [sv_and_ops]. rewrite (G8 Vx), <- !app_assoc. reflexivity.
 Qed.
 
 Lemma chain_or_good : forall xs l0 a0 r,
@@ -444,30 +366,30 @@ Lemma chain_or_good : forall xs l0 a0 r,
   yield_or r = yield_or (COr l0 a0) ++ flat_map (fun y => t_OR :: toks_of (pr y)) xs /\
   mc_or_list r = mc_or_list (COr l0 a0) ++ map ma xs /\
   (exists l a, r = COr l a) /\
-  (forallb vexpr xs = true ->
-     (sem_or (COr l0 a0) = true -> sem_or r = true) /\
-     sv_or_ops r = sv_or_ops (COr l0 a0) ++ xs /\ rt_or r = rt_or (COr l0 a0)).
+  rt_or r = fold_left (fun s x => rt_step false s (a_rt x)) xs (rt_or (COr l0 a0)) /\
+  (forallb constructible xs = true -> sem_or (COr l0 a0) = true -> sem_or r = true) /\
+  (forallb vexpr xs = true -> sv_or_ops r = sv_or_ops (COr l0 a0) ++ xs).
 Proof.
   induction xs as [|x xs IH]; intros l0 a0 r HF HA HC.
-  - cbn [map chain_or] in HC. inversion HC; subst r. cbn [flat_map map]. rewrite !app_nil_r.
+  - cbn [map chain_or] in HC. inversion HC; subst r. cbn [flat_map map fold_left]. rewrite !app_nil_r.
     repeat split; try tauto. exists l0, a0. reflexivity.
   - inversion HF as [|? ? Hx HF']; subst. cbn [forallb] in HA. apply andb_true_iff in HA. destruct HA as [Ax Axs].
     cbn [map chain_or] in HC. destruct (as_cmp (unv x)) as [c|] eqn:Ec; [|discriminate].
     destruct (lift_and c) as [a|] eqn:El; [|discriminate].
-    apply as_cmp_some in Ec. destruct (Hx _ Ec Ax) as [G1 [G2 [G3 [G4 [_ G6]]]]].
-    cbn [u_wf u_yield u_meaning u_inv] in G1, G2, G3, G4.
+    apply as_cmp_some in Ec. destruct (Hx _ Ec Ax) as [G1 [G2 [G3 [G4 [_ [G6 [G7 G8]]]]]]].
+    cbn [u_wf u_yield u_meaning u_inv u_rt u_sem u_sv] in G1, G2, G3, G4, G6, G7, G8.
     destruct (lift_and_facts c a G4 El) as [L1 [L2 [L3 [L4 [L5 L6]]]]].
-    destruct (IH (COr l0 a0) a r HF' Axs HC) as [I1 [I2 [I3 [I4 I5]]]].
+    destruct (IH (COr l0 a0) a r HF' Axs HC) as [I1 [I2 [I3 [I4 [I5 [I6 I7]]]]]].
     split; [intros W; apply I1; cbn [wf_or] in W |- *; rewrite W, L2, G1; reflexivity|].
     split; [rewrite I2; cbn [yield_or flat_map]; rewrite L1, G2, <- !app_assoc; reflexivity|].
     split; [rewrite I3; cbn [mc_or_list map]; fold (mc_and a); rewrite L3, G3, <- !app_assoc; reflexivity|].
     split; [exact I4|].
-    intros V. cbn [forallb] in V. apply andb_true_iff in V. destruct V as [Vx Vxs].
-    destruct (G6 Vx) as [S1 [S2 _]]. cbn [u_sem u_sv] in S1, S2.
-    destruct (I5 Vxs) as [J1 [J2 J3]].
-    split; [intros Sm; apply J1; cbn [sem_or] in Sm |- *; rewrite Sm, L5, S1; reflexivity|].
-    split; [rewrite J2; cbn [sv_or_ops]; fold (sv_and a); rewrite L4, S2, <- !app_assoc; reflexivity|].
-    rewrite J3. reflexivity.
+    split; [rewrite I5; change (rt_or (COr (COr l0 a0) a)) with (set_union (rt_or (COr l0 a0)) (rt_and a)); rewrite L6, G6; reflexivity|].
+    split.
+    + intros C Sm. cbn [forallb] in C. apply andb_true_iff in C. destruct C as [Cx Cxs].
+      apply I6; [exact Cxs|]. cbn [sem_or] in Sm |- *. rewrite Sm, L5, (G7 Cx). reflexivity.
+    + intros V. cbn [forallb] in V. apply andb_true_iff in V. destruct V as [Vx Vxs].
+      rewrite (I7 Vxs). cbn [sv_or_ops]. fold (sv_and a). rewrite L4, (G8 Vx), <- !app_assoc. reflexivity.
 Qed.
 
 Lemma chain_oand_good : forall xs l0 o0 r,
@@ -476,7 +398,8 @@ Lemma chain_oand_good : forall xs l0 o0 r,
   (wf_oand (OAnd l0 o0) = true -> wf_oand r = true) /\
   yield_oand r = yield_oand (OAnd l0 o0) ++ flat_map (fun y => t_AND :: toks_of (pr y)) xs /\
   mc_oand_list r = mc_oand_list (OAnd l0 o0) ++ map ma xs /\
-  (exists l o, r = OAnd l o) /\ (xs = [] -> r = OAnd l0 o0).
+  (exists l o, r = OAnd l o) /\ (xs = [] -> r = OAnd l0 o0) /\
+  (forallb constructible xs = true -> sem_oand (OAnd l0 o0) = true -> sem_oand r = true).
 Proof.
   induction xs as [|x xs IH]; intros l0 o0 r HF HA HC.
   - cbn [map chain_oand] in HC. inversion HC; subst r. cbn [flat_map map]. rewrite !app_nil_r.
@@ -484,13 +407,15 @@ Proof.
   - inversion HF as [|? ? Hx HF']; subst. cbn [forallb] in HA. apply andb_true_iff in HA. destruct HA as [Ax Axs].
     cbn [map chain_oand] in HC. destruct (as_obs (unv x)) as [c|] eqn:Ec; [|discriminate].
     destruct (lift_obs c) as [o|] eqn:El; [|discriminate]. apply lift_obs_facts in El. subst c.
-    apply as_obs_some in Ec. destruct (Hx _ Ec Ax) as [G1 [G2 [G3 _]]].
-    cbn [u_wf u_yield u_meaning ao_wf ao_yield ao_meaning] in G1, G2, G3.
-    destruct (IH (OAnd l0 o0) o r HF' Axs HC) as [I1 [I2 [I3 [I4 _]]]].
+    apply as_obs_some in Ec. destruct (Hx _ Ec Ax) as [G1 [G2 [G3 [_ [_ [_ [G7 _]]]]]]].
+    cbn [u_wf u_yield u_meaning u_sem ao_wf ao_yield ao_meaning ao_sem] in G1, G2, G3, G7.
+    destruct (IH (OAnd l0 o0) o r HF' Axs HC) as [I1 [I2 [I3 [I4 [_ I6]]]]].
     split; [intros W; apply I1; cbn [wf_oand] in W |- *; rewrite W, G1; reflexivity|].
     split; [rewrite I2; cbn [yield_oand flat_map]; rewrite G2, <- !app_assoc; reflexivity|].
     split; [rewrite I3; cbn [mc_oand_list map]; rewrite G3, <- !app_assoc; reflexivity|].
-    split; [exact I4|discriminate].
+    split; [exact I4|]. split; [discriminate|].
+    intros C Sm. cbn [forallb] in C. apply andb_true_iff in C. destruct C as [Cx Cxs].
+    apply I6; [exact Cxs|]. cbn [sem_oand] in Sm |- *. rewrite Sm, (G7 Cx). reflexivity.
 Qed.
 
 Lemma chain_oor_good : forall xs l0 a0 r,
@@ -499,7 +424,8 @@ Lemma chain_oor_good : forall xs l0 a0 r,
   (wf_oor (OOr l0 a0) = true -> wf_oor r = true) /\
   yield_oor r = yield_oor (OOr l0 a0) ++ flat_map (fun y => t_OR :: toks_of (pr y)) xs /\
   mc_oor_list r = mc_oor_list (OOr l0 a0) ++ map ma xs /\
-  (exists l a, r = OOr l a) /\ (xs = [] -> r = OOr l0 a0).
+  (exists l a, r = OOr l a) /\ (xs = [] -> r = OOr l0 a0) /\
+  (forallb constructible xs = true -> sem_oor (OOr l0 a0) = true -> sem_oor r = true).
 Proof.
   induction xs as [|x xs IH]; intros l0 a0 r HF HA HC.
   - cbn [map chain_oor] in HC. inversion HC; subst r. cbn [flat_map map]. rewrite !app_nil_r.
@@ -507,14 +433,16 @@ Proof.
   - inversion HF as [|? ? Hx HF']; subst. cbn [forallb] in HA. apply andb_true_iff in HA. destruct HA as [Ax Axs].
     cbn [map chain_oor] in HC. destruct (as_obs (unv x)) as [c|] eqn:Ec; [|discriminate].
     destruct (lift_oand c) as [a|] eqn:El; [|discriminate].
-    apply as_obs_some in Ec. destruct (Hx _ Ec Ax) as [G1 [G2 [G3 [G4 _]]]].
-    cbn [u_wf u_yield u_meaning u_inv] in G1, G2, G3, G4.
-    destruct (lift_oand_facts c a G4 El) as [L1 [L2 [L3 _]]].
-    destruct (IH (OOr l0 a0) a r HF' Axs HC) as [I1 [I2 [I3 [I4 _]]]].
+    apply as_obs_some in Ec. destruct (Hx _ Ec Ax) as [G1 [G2 [G3 [G4 [_ [_ [G7 _]]]]]]].
+    cbn [u_wf u_yield u_meaning u_inv u_sem] in G1, G2, G3, G4, G7.
+    destruct (lift_oand_facts c a G4 El) as [L1 [L2 [L3 [_ L5]]]].
+    destruct (IH (OOr l0 a0) a r HF' Axs HC) as [I1 [I2 [I3 [I4 [_ I6]]]]].
     split; [intros W; apply I1; cbn [wf_oor] in W |- *; rewrite W, L2, G1; reflexivity|].
     split; [rewrite I2; cbn [yield_oor flat_map]; rewrite L1, G2, <- !app_assoc; reflexivity|].
     split; [rewrite I3; cbn [mc_oor_list map]; rewrite L3, G3, <- !app_assoc; reflexivity|].
-    split; [exact I4|discriminate].
+    split; [exact I4|]. split; [discriminate|].
+    intros C Sm. cbn [forallb] in C. apply andb_true_iff in C. destruct C as [Cx Cxs].
+    apply I6; [exact Cxs|]. cbn [sem_oor] in Sm |- *. rewrite Sm, L5, (G7 Cx). reflexivity.
 Qed.
 
 Lemma chain_fb_good : forall xs l0 a0 r,
@@ -523,7 +451,8 @@ Lemma chain_fb_good : forall xs l0 a0 r,
   (wf_fb (OFb l0 a0) = true -> wf_fb r = true) /\
   yield_fb r = yield_fb (OFb l0 a0) ++ flat_map (fun y => t_FOLLOWEDBY :: toks_of (pr y)) xs /\
   mc_fb_list r = mc_fb_list (OFb l0 a0) ++ map ma xs /\
-  (exists l a, r = OFb l a) /\ (xs = [] -> r = OFb l0 a0).
+  (exists l a, r = OFb l a) /\ (xs = [] -> r = OFb l0 a0) /\
+  (forallb constructible xs = true -> sem_fb (OFb l0 a0) = true -> sem_fb r = true).
 Proof.
   induction xs as [|x xs IH]; intros l0 a0 r HF HA HC.
   - cbn [map chain_fb] in HC. inversion HC; subst r. cbn [flat_map map]. rewrite !app_nil_r.
@@ -531,14 +460,16 @@ Proof.
   - inversion HF as [|? ? Hx HF']; subst. cbn [forallb] in HA. apply andb_true_iff in HA. destruct HA as [Ax Axs].
     cbn [map chain_fb] in HC. destruct (as_obs (unv x)) as [c|] eqn:Ec; [|discriminate].
     destruct (lift_oor c) as [a|] eqn:El; [|discriminate].
-    apply as_obs_some in Ec. destruct (Hx _ Ec Ax) as [G1 [G2 [G3 [G4 _]]]].
-    cbn [u_wf u_yield u_meaning u_inv] in G1, G2, G3, G4.
-    destruct (lift_oor_facts c a G4 El) as [L1 [L2 [L3 _]]].
-    destruct (IH (OFb l0 a0) a r HF' Axs HC) as [I1 [I2 [I3 [I4 _]]]].
+    apply as_obs_some in Ec. destruct (Hx _ Ec Ax) as [G1 [G2 [G3 [G4 [_ [_ [G7 _]]]]]]].
+    cbn [u_wf u_yield u_meaning u_inv u_sem] in G1, G2, G3, G4, G7.
+    destruct (lift_oor_facts c a G4 El) as [L1 [L2 [L3 [_ L5]]]].
+    destruct (IH (OFb l0 a0) a r HF' Axs HC) as [I1 [I2 [I3 [I4 [_ I6]]]]].
     split; [intros W; apply I1; cbn [wf_fb] in W |- *; rewrite W, L2, G1; reflexivity|].
     split; [rewrite I2; cbn [yield_fb flat_map]; rewrite L1, G2, <- !app_assoc; reflexivity|].
     split; [rewrite I3; cbn [mc_fb_list map]; rewrite L3, G3, <- !app_assoc; reflexivity|].
-    split; [exact I4|discriminate].
+    split; [exact I4|]. split; [discriminate|].
+    intros C Sm. cbn [forallb] in C. apply andb_true_iff in C. destruct C as [Cx Cxs].
+    apply I6; [exact Cxs|]. cbn [sem_fb] in Sm |- *. rewrite Sm, L5, (G7 Cx). reflexivity.
 Qed.
 
 (* ------------------------------------------------------------------ *)
@@ -546,7 +477,7 @@ Qed.
 
 Lemma nonneg_tok : forall z, (0 <=? z)%Z = true -> kind_in (const_tok (CInt z)) [KIntPos] = true.
 Proof.
-  intros z H. apply Z.leb_le in H. unfold const_tok. cbn [pr_const]. fold (int_tok z).
+  intros z H. apply Z.leb_le in H. unfold const_tok. cbn [PatternSyntax.pr_const]. fold (int_tok z).
   destruct (int_tok_kind z) as [_ O]. apply kind_in_make; [|exact O].
   unfold int_tok. cbn [tk]. destruct z as [|p|p]; [reflexivity| |lia].
   cbn [dec_of_Z]. pose proof (dec_of_N_head (Npos p)) as Hh. destruct (dec_of_N (Npos p)) as [|c r]; [contradiction|].
@@ -557,9 +488,9 @@ Lemma posfloat_tok : forall f, const_ok (CFloat f) = true -> f_neg f = false -> 
 Proof.
   intros f H Hn. destruct (const_token (CFloat f) H) as [K _]. unfold kind_in in K |- *.
   apply andb_true_iff in K. destruct K as [K1 K2]. rewrite K2, andb_true_r.
-  unfold const_tok in *. cbn [pr_const tk] in *. unfold print_float. rewrite Hn. cbn [List.app].
-  cbn [const_ok] in H. apply andb_true_iff in H. destruct H as [Hf Hp]. apply fnorm_b_spec in Hf. destruct Hf as [Hi _].
-  rewrite Hp. pose proof (or0_head_digit (f_ip f) (46 :: or0 (f_fp f)) Hi) as Hh.
+  unfold const_tok in *. cbn [PatternSyntax.pr_const tk] in *. rewrite print_float_rep, Hn. cbn [List.app].
+  cbn [const_ok] in H. apply fnorm_b_spec in H. destruct H as [Hi _].
+  pose proof (or0_head_digit (f_ip f) (46 :: or0 (f_fp f)) Hi) as Hh.
   destruct (or0 (f_ip f) ++ 46 :: or0 (f_fp f)) as [|c r]; [contradiction|].
   destruct (is_digit_not_sign c Hh) as [A _]. unfold num_kind. rewrite A. reflexivity.
 Qed.
@@ -568,17 +499,17 @@ Lemma qual_good : forall q q', aqual_ok q = true -> unv_qual q = Some q' ->
   wf_qual q' = true /\ yield_qual q' = toks_of (pr_qual q) /\ mc_qual q' = ma_qual q /\
   sem_qual q' = true /\ sv_qual q' = q.
 Proof.
-  intros [c|c|a b] q' H U; cbn [aqual_ok unv_qual] in *.
+  intros [c|c|a b] q' H U; cbn [aqual_ok PatternSyntax.unv_qual] in *.
   - destruct c as [| |z| | | | |]; try discriminate H. cbn [nonneg_int] in H.
     rewrite (tok_of_const_leaf (CInt z) eq_refl) in U. inversion U; subst q'.
     destruct (const_token (CInt z) eq_refl) as [_ [_ V]].
-    cbn [wf_qual yield_qual mc_qual sem_qual sv_qual pr_qual ma_qual].
+    cbn [wf_qual yield_qual mc_qual sem_qual sv_qual PatternSyntax.pr_qual ma_qual].
     rewrite (nonneg_tok z H), (const_meaning (CInt z) eq_refl), V, !toks_of_app, (pr_const_leaf (CInt z) eq_refl). repeat split; reflexivity.
   - apply orb_true_iff in H. destruct H as [H|H].
     + destruct c as [| |z| | | | |]; try discriminate H. cbn [nonneg_int] in H.
       rewrite (tok_of_const_leaf (CInt z) eq_refl) in U. inversion U; subst q'.
       destruct (const_token (CInt z) eq_refl) as [_ [_ V]].
-      cbn [wf_qual yield_qual mc_qual sem_qual sv_qual pr_qual ma_qual].
+      cbn [wf_qual yield_qual mc_qual sem_qual sv_qual PatternSyntax.pr_qual ma_qual].
       rewrite (kind_in_weaken _ [KIntPos] [KIntPos; KFloatPos] (nonneg_tok z H)),
               (const_meaning (CInt z) eq_refl), V, !toks_of_app, (pr_const_leaf (CInt z) eq_refl);
         [repeat split; reflexivity|].
@@ -587,7 +518,7 @@ Proof.
       apply andb_true_iff in H. destruct H as [Ho Hn]. apply negb_true_iff in Hn.
       rewrite (tok_of_const_leaf (CFloat f) Ho) in U. inversion U; subst q'.
       destruct (const_token (CFloat f) Ho) as [_ [_ V]].
-      cbn [wf_qual yield_qual mc_qual sem_qual sv_qual pr_qual ma_qual].
+      cbn [wf_qual yield_qual mc_qual sem_qual sv_qual PatternSyntax.pr_qual ma_qual].
       rewrite (kind_in_weaken _ [KFloatPos] [KIntPos; KFloatPos] (posfloat_tok f Ho Hn)),
               (const_meaning (CFloat f) Ho), V, !toks_of_app, (pr_const_leaf (CFloat f) Ho);
         [repeat split; reflexivity|].
@@ -597,7 +528,7 @@ Proof.
     destruct a as [|ta| | | | | |]; try discriminate Ha2. destruct b as [|tb| | | | | |]; try discriminate Hb2.
     rewrite (tok_of_const_leaf _ Ha1), (tok_of_const_leaf _ Hb1) in U. inversion U; subst q'.
     destruct (const_token _ Ha1) as [Ka [Sa Va]]. destruct (const_token _ Hb1) as [Kb [Sb Vb]].
-    cbn [wf_qual yield_qual mc_qual sem_qual sv_qual pr_qual ma_qual kinds_of] in *.
+    cbn [wf_qual yield_qual mc_qual sem_qual sv_qual PatternSyntax.pr_qual ma_qual kinds_of] in *.
     rewrite Ka, Kb, Sa, Sb, Va, Vb, (const_meaning _ Ha1), (const_meaning _ Hb1), !toks_of_app,
             (pr_const_leaf _ Ha1), (pr_const_leaf _ Hb1). repeat split; reflexivity.
 Qed.
@@ -635,7 +566,7 @@ Proof. destruct o; exact I. Qed.
 Lemma unv_cmp_shape : forall x c, unv x = Some (UCmp c) ->
   match x with EObs _ | ECompound _ _ | EQualified _ _ => False | _ => True end.
 Proof.
-  intros x c H. destruct x as [cls lhs rhs neg|isand ops|y|op ops|y|y q]; try exact I; cbn [unv] in H.
+  intros x c H. destruct x as [cls lhs rhs neg|isand ops|y|op ops|y|y q]; try exact I; cbn [PatternSyntax.unv] in H.
   - destruct (as_cmp (unv y)); discriminate.
   - destruct (map (fun x => as_obs (unv x)) ops) as [|[f|] [|s r]]; try discriminate.
     destruct op.
@@ -655,67 +586,65 @@ Proof. intros [x|x|x|x]; reflexivity. Qed.
 
 Lemma paren_good : forall x, PGood x -> PGood (EParen x).
 Proof.
-  intros x IH u U A. cbn [unv] in U. cbn [aprint] in A.
+  intros x IH u U A. cbn [PatternSyntax.unv] in U. cbn [aprint] in A.
   destruct (unv x) as [[c|o]|] eqn:E; [| |discriminate]; inversion U; subst u; clear U;
-    destruct (IH _ E A) as [G1 [G2 [G3 [G4 [G5 G6]]]]];
-    cbn [u_wf u_yield u_meaning u_inv u_sem u_sv u_rt] in G1, G2, G3, G4, G6.
+    destruct (IH _ E A) as [G1 [G2 [G3 [G4 [G5 [G6 [G7 G8]]]]]]];
+    cbn [u_wf u_yield u_meaning u_inv u_sem u_sv u_rt] in G1, G2, G3, G4, G6, G7, G8.
   - destruct (lift_or_facts c G4) as [L1 [L2 [L3 [L4 [L5 L6]]]]].
     unfold Good. cbn [u_wf u_yield u_meaning u_inv u_level u_sem u_sv u_rt ac_wf ac_yield ac_meaning ac_inv ac_sem ac_sv ac_rt
-                       wf_pt yield_pt mc_pt sem_pt sv_pt rt_pt pr ma level vexpr a_rt].
+                       wf_pt yield_pt mc_pt sem_pt sv_pt rt_pt PatternSyntax.pr PatternSyntax.ma level vexpr a_rt constructible].
     fold (mc_or (lift_or c)). fold (sv_or (lift_or c)).
-    rewrite L1, L2, L3, L4, L5, L6, G1, G2, G3, !toks_of_app, <- G5, (ucmp_level c).
-    repeat split; try reflexivity;
-      match goal with V : vexpr _ = true |- _ => destruct (G6 V) as [S1 [S2 S3]] end;
-      try rewrite S1; try rewrite S2; try rewrite S3; reflexivity.
+    rewrite L1, L2, L3, L4, L5, L6, G1, G2, G3, G6, !toks_of_app, <- G5, (ucmp_level c).
+    split; [reflexivity|]. split; [reflexivity|]. split; [reflexivity|]. split; [exact I|]. split; [reflexivity|].
+    split; [reflexivity|]. split; [exact G7|]. intros V. rewrite (G8 V). reflexivity.
   - destruct (lift_fb_facts o G4) as [L1 [L2 [L3 [L4 L5]]]].
     unfold Good. cbn [u_wf u_yield u_meaning u_inv u_level u_sem u_sv u_rt ao_wf ao_yield ao_meaning ao_inv ao_sem ao_sv
-                       wf_obs yield_obs mc_obs sem_obs sv_obs pr ma level vexpr a_rt].
+                       wf_obs yield_obs mc_obs sem_obs sv_obs PatternSyntax.pr PatternSyntax.ma level vexpr a_rt constructible].
     rewrite L1, L2, L3, L4, L5, G1, G2, G3, !toks_of_app, <- G5, (uobs_level o).
-    repeat split; try reflexivity;
-      match goal with V : vexpr _ = true |- _ => destruct (G6 V) as [S1 [S2 S3]] end;
-      try rewrite S1; try rewrite S2; try exact S3; reflexivity.
+    split; [reflexivity|]. split; [reflexivity|]. split; [reflexivity|]. split; [exact I|]. split; [reflexivity|].
+    split; [exact G6|]. split; [exact G7|]. intros V. rewrite (G8 V). reflexivity.
 Qed.
 
 Lemma obs_good : forall x, PGood x -> PGood (EObs x).
 Proof.
-  intros x IH u U A. cbn [unv] in U. cbn [aprint] in A.
+  intros x IH u U A. cbn [PatternSyntax.unv] in U. cbn [aprint] in A.
   destruct (as_cmp (unv x)) as [c|] eqn:E; [|discriminate]. inversion U; subst u; clear U.
   apply as_cmp_some in E. pose proof (unv_cmp_shape x c E) as Sh.
-  destruct (IH _ E A) as [G1 [G2 [G3 [G4 [G5 G6]]]]].
-  cbn [u_wf u_yield u_meaning u_inv u_sem u_sv u_rt] in G1, G2, G3, G4, G6.
+  destruct (IH _ E A) as [G1 [G2 [G3 [G4 [G5 [G6 [G7 G8]]]]]]].
+  cbn [u_wf u_yield u_meaning u_inv u_sem u_sv u_rt] in G1, G2, G3, G4, G6, G7, G8.
   destruct (lift_or_facts c G4) as [L1 [L2 [L3 [L4 [L5 L6]]]]].
   assert (P : toks_of (pr (EObs x)) = [t_LBRACK] ++ toks_of (pr x) ++ [t_RBRACK]).
-  { destruct x; try contradiction; cbn [pr]; rewrite !toks_of_app; reflexivity. }
+  { destruct x; try contradiction; cbn [PatternSyntax.pr]; rewrite !toks_of_app; reflexivity. }
   assert (M : ma (EObs x) = MObs (ma x)) by (destruct x; try contradiction; reflexivity).
   unfold Good. rewrite P, M.
   cbn [u_wf u_yield u_meaning u_inv u_level u_sem u_sv u_rt ao_wf ao_yield ao_meaning ao_inv ao_sem ao_sv
-       wf_obs yield_obs mc_obs sem_obs sv_obs level vexpr a_rt].
+       wf_obs yield_obs mc_obs sem_obs sv_obs level vexpr a_rt constructible].
   rewrite L1, L2, L3, L4, L5, G1, G2, G3.
-  repeat split; try reflexivity;
-    match goal with V : _ && _ = true |- _ => apply andb_true_iff in V; destruct V as [V _]; destruct (G6 V) as [S1 [S2 S3]] end;
-    try rewrite S1; try rewrite S2; reflexivity.
+  split; [reflexivity|]. split; [reflexivity|]. split; [reflexivity|]. split; [exact I|]. split; [reflexivity|].
+  split; [reflexivity|]. split; [exact G7|].
+  intros V. apply andb_true_iff in V. destruct V as [V _]. rewrite (G8 V). reflexivity.
 Qed.
 
 Lemma toks_pr_qualified : forall x q, toks_of (pr (EQualified x q)) = toks_of (pr x) ++ toks_of (pr_qual q).
-Proof. intros x q. cbn [pr]. rewrite !toks_of_app. reflexivity. Qed.
+Proof. intros x q. cbn [PatternSyntax.pr]. rewrite !toks_of_app. reflexivity. Qed.
 
 Lemma qualified_good : forall x q, PGood x -> PGood (EQualified x q).
 Proof.
-  intros x q IH u U A. cbn [unv] in U. cbn [aprint] in A. apply andb_true_iff in A. destruct A as [Ax Aq].
+  intros x q IH u U A. cbn [PatternSyntax.unv] in U. cbn [aprint] in A. apply andb_true_iff in A. destruct A as [Ax Aq].
   destruct (as_obs (unv x)) as [o|] eqn:E; [|discriminate].
   destruct (unv_qual q) as [q'|] eqn:Eq; [|discriminate].
   destruct (lift_obs o) as [o'|] eqn:El; [|discriminate]. inversion U; subst u; clear U.
   apply lift_obs_facts in El. subst o. apply as_obs_some in E.
-  destruct (IH _ E Ax) as [G1 [G2 [G3 [G4 [G5 G6]]]]].
-  cbn [u_wf u_yield u_meaning u_inv u_sem u_sv u_rt ao_wf ao_yield ao_meaning ao_sem ao_sv] in G1, G2, G3, G4, G6.
+  destruct (IH _ E Ax) as [G1 [G2 [G3 [G4 [G5 [G6 [G7 G8]]]]]]].
+  cbn [u_wf u_yield u_meaning u_inv u_sem u_sv u_rt ao_wf ao_yield ao_meaning ao_sem ao_sv] in G1, G2, G3, G4, G6, G7, G8.
   destruct (qual_good q q' Aq Eq) as [Q1 [Q2 [Q3 [Q4 Q5]]]].
   unfold Good. rewrite toks_pr_qualified.
   cbn [u_wf u_yield u_meaning u_inv u_level u_sem u_sv u_rt ao_wf ao_yield ao_meaning ao_inv ao_sem ao_sv
-       wf_obs yield_obs mc_obs sem_obs sv_obs ma level vexpr a_rt].
+       wf_obs yield_obs mc_obs sem_obs sv_obs PatternSyntax.ma level vexpr a_rt constructible].
   rewrite G1, G2, G3, Q1, Q2, Q3, Q4, Q5.
-  repeat split; try reflexivity;
-    match goal with V : _ && _ = true |- _ => apply andb_true_iff in V; destruct V as [V _]; destruct (G6 V) as [S1 [S2 S3]] end;
-    try rewrite S1; try rewrite S2; reflexivity.
+  split; [reflexivity|]. split; [reflexivity|]. split; [reflexivity|]. split; [exact I|]. split; [reflexivity|].
+  split; [reflexivity|]. split; [intros C; rewrite (G7 C); reflexivity|].
+  intros V. apply andb_true_iff in V. destruct V as [V _]. rewrite (G8 V). reflexivity.
 Qed.
 
 Definition same_bool (isand : bool) (m : mexpr) : option (list mexpr) :=
@@ -763,7 +692,7 @@ Proof. intros [p|a|o] x H L; rewrite <- H in L; cbn in L; try discriminate. exis
 
 Lemma bool_good : forall isand ops, Forall PGood ops -> PGood (EBool isand ops).
 Proof.
-  intros isand ops HF u U A. cbn [unv] in U. cbn [aprint] in A.
+  intros isand ops HF u U A. cbn [PatternSyntax.unv] in U. cbn [aprint] in A.
   destruct ops as [|x1 [|x2 xs]].
   - discriminate U.
   - cbn [map] in U. destruct (as_cmp (unv x1)); discriminate U.
@@ -771,8 +700,8 @@ Proof.
     inversion HF as [|? ? H1 HF2]; subst. inversion HF2 as [|? ? H2 HFs]; subst.
     cbn [forallb] in A. apply andb_true_iff in A. destruct A as [A1 A]. apply andb_true_iff in A. destruct A as [A2 As].
     apply as_cmp_some in E1.
-    destruct (H1 _ E1 A1) as [F1 [F2 [F3 [F4 [F5 F6]]]]].
-    cbn [u_wf u_yield u_meaning u_inv u_sem u_sv u_rt] in F1, F2, F3, F4, F6.
+    destruct (H1 _ E1 A1) as [F1 [F2 [F3 [F4 [F5 [F6 [F7 F8]]]]]]].
+    cbn [u_wf u_yield u_meaning u_inv u_sem u_sv u_rt] in F1, F2, F3, F4, F6, F7, F8.
     destruct isand.
     + (* AND *)
       destruct (lift_and first) as [a1|] eqn:L1; [|discriminate U].
@@ -780,11 +709,13 @@ Proof.
       cbn [chain_and] in C. destruct (as_cmp (unv x2)) as [c2|] eqn:E2; [|discriminate C].
       destruct (lift_pt c2) as [p2|] eqn:L2; [|discriminate C]. apply lift_pt_facts in L2. subst c2.
       apply as_cmp_some in E2.
-      destruct (H2 _ E2 A2) as [S1 [S2 [S3 [_ [S5 S6]]]]].
-      cbn [u_wf u_yield u_meaning u_inv u_sem u_sv u_rt ac_wf ac_yield ac_meaning ac_sem ac_sv ac_rt] in S1, S2, S3, S6.
+      destruct (H2 _ E2 A2) as [S1 [S2 [S3 [_ [S5 [S6 [S7 S8]]]]]]].
+      cbn [u_wf u_yield u_meaning u_inv u_sem u_sv u_rt ac_wf ac_yield ac_meaning ac_sem ac_sv ac_rt] in S1, S2, S3, S6, S7, S8.
       destruct (lift_and_facts first a1 F4 L1) as [La1 [La2 [La3 [La4 [La5 La6]]]]].
-      destruct (chain_and_good xs a1 p2 r HFs As C) as [I1 [I2 [I3 [I4 I5]]]].
-      unfold Good. cbn [u_wf u_yield u_meaning u_inv u_level u_sem u_sv u_rt ac_wf ac_yield ac_meaning ac_sem ac_sv ac_rt level pr].
+      destruct (chain_and_good xs a1 p2 r HFs As C) as [I1 [I2 [I3 [I4 [I5 [I6 I7]]]]]].
+      assert (Rt : rt_and (CAnd a1 p2) = set_inter (a_rt x1) (a_rt x2)).
+      { cbn [rt_and]. rewrite La6, F6, S6. reflexivity. }
+      unfold Good. cbn [u_wf u_yield u_meaning u_inv u_level u_sem u_sv u_rt ac_wf ac_yield ac_meaning ac_sem ac_sv ac_rt level PatternSyntax.pr].
       split; [apply I1; cbn [wf_and]; rewrite La2, F1, S1; reflexivity|].
       split; [rewrite I2, toks_pr_ops; cbn [yield_and]; rewrite La1, F2, S2; reflexivity|].
       split; [rewrite ma_bool; cbn [map]; rewrite <- F3, (splice_and first a1 _ F4 L1); unfold mc_and; rewrite I3;
@@ -792,27 +723,30 @@ Proof.
               rewrite (one_or_two _ (MBoolOp true) _ _ _ (mc_and_list_nonnil a1)); reflexivity|].
       split; [destruct I4 as [l [p Er]]; rewrite Er; exact I|].
       split; [reflexivity|].
-      intros V. cbn [vexpr] in V. apply andb_true_iff in V. destruct V as [V Vrt]. apply andb_true_iff in V. destruct V as [Vx Vl].
-      cbn [forallb] in Vx, Vl. apply andb_true_iff in Vx. destruct Vx as [Vx1 Vx]. apply andb_true_iff in Vx. destruct Vx as [Vx2 Vxs].
-      apply andb_true_iff in Vl. destruct Vl as [Vl1 _].
-      destruct (level_pt_form first x1 F5 Vl1) as [p1 Ef]. subst first. cbn in L1. inversion L1; subst a1.
-      destruct (F6 Vx1) as [T1 [T2 T3]]. destruct (S6 Vx2) as [T4 [T5 T6]].
-      cbn [ac_sem ac_sv ac_rt] in T1, T2, T3.
-      destruct (I5 Vxs) as [J1 [J2 J3]].
-      split; [apply J1; cbn [sem_and]; rewrite T1, T4, T3, T6; exact Vrt|].
-      split; [unfold sv_and; rewrite J2; cbn [sv_and_ops List.app]; rewrite T2, T5; reflexivity|].
-      rewrite J3. cbn [rt_and a_rt]. rewrite T3, T6. reflexivity.
+      split; [rewrite I5, Rt; reflexivity|].
+      split.
+      * intros Cn. cbn [constructible] in Cn. apply andb_true_iff in Cn. destruct Cn as [Cn Crt].
+        cbn [forallb] in Cn. apply andb_true_iff in Cn. destruct Cn as [C1 Cn]. apply andb_true_iff in Cn. destruct Cn as [C2 Cs].
+        cbn [map rt_ok] in Crt. apply andb_true_iff in Crt. destruct Crt as [Crt1 Crt2].
+        apply I6; [exact Cs| |rewrite Rt; exact Crt2].
+        cbn [sem_and]. rewrite La5, (F7 C1), (S7 C2), La6, F6, S6. exact Crt1.
+      * intros V. cbn [vexpr] in V. apply andb_true_iff in V. destruct V as [V _]. apply andb_true_iff in V. destruct V as [Vx Vl].
+        cbn [forallb] in Vx, Vl. apply andb_true_iff in Vx. destruct Vx as [Vx1 Vx]. apply andb_true_iff in Vx. destruct Vx as [Vx2 Vxs].
+        apply andb_true_iff in Vl. destruct Vl as [Vl1 _].
+        destruct (level_pt_form first x1 F5 Vl1) as [p1 Ef]. subst first. cbn in L1. inversion L1; subst a1.
+        cbn [ac_sv] in F8.
+        unfold sv_and. rewrite (I7 Vxs). cbn [sv_and_ops List.app]. rewrite (F8 Vx1), (S8 Vx2). reflexivity.
     + (* OR *)
       destruct (chain_or (lift_or first) _) as [r|] eqn:C; [|discriminate U]. inversion U; subst u; clear U.
       cbn [chain_or] in C. destruct (as_cmp (unv x2)) as [c2|] eqn:E2; [|discriminate C].
       destruct (lift_and c2) as [a2|] eqn:L2; [|discriminate C].
       apply as_cmp_some in E2.
-      destruct (H2 _ E2 A2) as [S1 [S2 [S3 [S4 [S5 S6]]]]].
-      cbn [u_wf u_yield u_meaning u_inv u_sem u_sv u_rt] in S1, S2, S3, S4, S6.
+      destruct (H2 _ E2 A2) as [S1 [S2 [S3 [S4 [S5 [S6 [S7 S8]]]]]]].
+      cbn [u_wf u_yield u_meaning u_inv u_sem u_sv u_rt] in S1, S2, S3, S4, S6, S7, S8.
       destruct (lift_or_facts first F4) as [La1 [La2 [La3 [La4 [La5 La6]]]]].
       destruct (lift_and_facts c2 a2 S4 L2) as [Lb1 [Lb2 [Lb3 [Lb4 [Lb5 Lb6]]]]].
-      destruct (chain_or_good xs (lift_or first) a2 r HFs As C) as [I1 [I2 [I3 [I4 I5]]]].
-      unfold Good. cbn [u_wf u_yield u_meaning u_inv u_level u_sem u_sv u_rt ac_wf ac_yield ac_meaning ac_sem ac_sv ac_rt level pr].
+      destruct (chain_or_good xs (lift_or first) a2 r HFs As C) as [I1 [I2 [I3 [I4 [I5 [I6 I7]]]]]].
+      unfold Good. cbn [u_wf u_yield u_meaning u_inv u_level u_sem u_sv u_rt ac_wf ac_yield ac_meaning ac_sem ac_sv ac_rt level PatternSyntax.pr].
       split; [apply I1; cbn [wf_or]; rewrite La2, Lb2, F1, S1; reflexivity|].
       split; [rewrite I2, toks_pr_ops; cbn [yield_or]; rewrite La1, Lb1, F2, S2; reflexivity|].
       split; [rewrite ma_bool; cbn [map]; rewrite <- F3, (splice_or first _ F4); unfold mc_or; rewrite I3;
@@ -820,20 +754,17 @@ Proof.
               rewrite (one_or_two _ (MBoolOp false) _ _ _ (mc_or_list_nonnil (lift_or first))); reflexivity|].
       split; [destruct I4 as [l [a Er]]; rewrite Er; exact I|].
       split; [reflexivity|].
-      intros V. cbn [vexpr] in V. apply andb_true_iff in V. destruct V as [V _]. apply andb_true_iff in V. destruct V as [Vx Vl].
-      cbn [forallb] in Vx, Vl. apply andb_true_iff in Vx. destruct Vx as [Vx1 Vx]. apply andb_true_iff in Vx. destruct Vx as [Vx2 Vxs].
-      apply andb_true_iff in Vl. destruct Vl as [Vl1 _].
-      destruct (F6 Vx1) as [T1 [T2 T3]]. destruct (S6 Vx2) as [T4 [T5 T6]].
-      destruct (I5 Vxs) as [J1 [J2 J3]].
-      assert (Fo : exists a, lift_or first = COrBase a /\ sv_or_ops (lift_or first) = [ac_sv first] /\ rt_and a = ac_rt first).
-      { destruct first as [p|a|o].
-        - exists (CAndBase p). repeat split.
-        - exists a. repeat split.
-        - exfalso. rewrite <- F5 in Vl1. discriminate Vl1. }
-      destruct Fo as [a0 [Fo1 [Fo2 Fo3]]].
-      split; [apply J1; cbn [sem_or]; rewrite La5, Lb5, T1, T4; reflexivity|].
-      split; [unfold sv_or; rewrite J2; cbn [sv_or_ops]; fold (sv_and a2); rewrite Fo2, Lb4, T2, T5; reflexivity|].
-      rewrite J3, Fo1. cbn [rt_or a_rt]. rewrite Fo3, Lb6, T3, T6. reflexivity.
+      split; [rewrite I5; cbn [rt_or a_rt fold_left rt_step]; rewrite La6, Lb6, F6, S6; reflexivity|].
+      split.
+      * intros Cn. cbn [constructible] in Cn. rewrite andb_true_r in Cn.
+        cbn [forallb] in Cn. apply andb_true_iff in Cn. destruct Cn as [C1 Cn]. apply andb_true_iff in Cn. destruct Cn as [C2 Cs].
+        apply I6; [exact Cs|]. cbn [sem_or]. rewrite La5, Lb5, (F7 C1), (S7 C2). reflexivity.
+      * intros V. cbn [vexpr] in V. apply andb_true_iff in V. destruct V as [V _]. apply andb_true_iff in V. destruct V as [Vx Vl].
+        cbn [forallb] in Vx, Vl. apply andb_true_iff in Vx. destruct Vx as [Vx1 Vx]. apply andb_true_iff in Vx. destruct Vx as [Vx2 Vxs].
+        apply andb_true_iff in Vl. destruct Vl as [Vl1 _].
+        assert (Fo2 : sv_or_ops (lift_or first) = [ac_sv first]).
+        { destruct first as [p|a|o]; try reflexivity. exfalso. rewrite <- F5 in Vl1. discriminate Vl1. }
+        unfold sv_or. rewrite (I7 Vxs). cbn [sv_or_ops]. fold (sv_and a2). rewrite Fo2, Lb4, (F8 Vx1), (S8 Vx2). reflexivity.
 Qed.
 
 Lemma splice_oand : forall first a1 rest, ao_inv first -> lift_oand first = Some a1 ->
@@ -896,7 +827,7 @@ Qed.
 
 Lemma cpd_good : forall op ops, Forall PGood ops -> PGood (ECompound op ops).
 Proof.
-  intros op ops HF u U A. cbn [unv] in U. cbn [aprint] in A.
+  intros op ops HF u U A. cbn [PatternSyntax.unv] in U. cbn [aprint] in A.
   destruct ops as [|x1 [|x2 xs]].
   - discriminate U.
   - cbn [map] in U. destruct (as_obs (unv x1)); discriminate U.
@@ -904,13 +835,17 @@ Proof.
     inversion HF as [|? ? H1 HF2]; subst. inversion HF2 as [|? ? H2 HFs]; subst.
     cbn [forallb] in A. apply andb_true_iff in A. destruct A as [A1 A]. apply andb_true_iff in A. destruct A as [A2 As].
     apply as_obs_some in E1.
-    destruct (H1 _ E1 A1) as [F1 [F2 [F3 [F4 [F5 F6]]]]].
-    cbn [u_wf u_yield u_meaning u_inv u_sem u_sv u_rt] in F1, F2, F3, F4, F6.
+    destruct (H1 _ E1 A1) as [F1 [F2 [F3 [F4 [F5 [_ [F7 F8]]]]]]].
+    cbn [u_wf u_yield u_meaning u_inv u_sem u_sv] in F1, F2, F3, F4, F7, F8.
     assert (Vshape : vexpr (ECompound op (x1 :: x2 :: xs)) = true ->
               xs = [] /\ vexpr x1 = true /\ vexpr x2 = true).
     { intros V. cbn [vexpr] in V. destruct xs; [|discriminate V].
       apply andb_true_iff in V. destruct V as [V _]. apply andb_true_iff in V. destruct V as [V _].
       apply andb_true_iff in V. destruct V as [V1 V2]. repeat split; assumption. }
+    assert (Cshape : constructible (ECompound op (x1 :: x2 :: xs)) = true ->
+              constructible x1 = true /\ constructible x2 = true /\ forallb constructible xs = true).
+    { intros Cn. cbn [constructible forallb] in Cn. apply andb_true_iff in Cn. destruct Cn as [C1 Cn].
+      apply andb_true_iff in Cn. destruct Cn as [C2 Cs]. repeat split; assumption. }
     destruct op.
     + (* AND *)
       destruct (lift_oand first) as [a1|] eqn:L1; [|discriminate U].
@@ -918,64 +853,70 @@ Proof.
       cbn [chain_oand] in C. destruct (as_obs (unv x2)) as [c2|] eqn:E2; [|discriminate C].
       destruct (lift_obs c2) as [o2|] eqn:L2; [|discriminate C]. apply lift_obs_facts in L2. subst c2.
       apply as_obs_some in E2.
-      destruct (H2 _ E2 A2) as [S1 [S2 [S3 [_ [S5 S6]]]]].
-      cbn [u_wf u_yield u_meaning u_inv u_sem u_sv u_rt ao_wf ao_yield ao_meaning ao_sem ao_sv] in S1, S2, S3, S6.
+      destruct (H2 _ E2 A2) as [S1 [S2 [S3 [_ [S5 [_ [S7 S8]]]]]]].
+      cbn [u_wf u_yield u_meaning u_inv u_sem u_sv ao_wf ao_yield ao_meaning ao_sem ao_sv] in S1, S2, S3, S7, S8.
       destruct (lift_oand_facts first a1 F4 L1) as [La1 [La2 [La3 [La4 La5]]]].
-      destruct (chain_oand_good xs a1 o2 r HFs As C) as [I1 [I2 [I3 [I4 I5]]]].
-      unfold Good. cbn [u_wf u_yield u_meaning u_inv u_level u_sem u_sv u_rt ao_wf ao_yield ao_meaning ao_sem ao_sv level pr obsop_tok].
+      destruct (chain_oand_good xs a1 o2 r HFs As C) as [I1 [I2 [I3 [I4 [I5 I6]]]]].
+      unfold Good. cbn [u_wf u_yield u_meaning u_inv u_level u_sem u_sv u_rt ao_wf ao_yield ao_meaning ao_sem ao_sv level PatternSyntax.pr obsop_tok a_rt].
       split; [apply I1; cbn [wf_oand]; rewrite La2, F1, S1; reflexivity|].
       split; [rewrite I2, toks_pr_ops; cbn [yield_oand]; rewrite La1, F2, S2; reflexivity|].
       split; [rewrite ma_cpd; cbn [map]; rewrite <- F3, (splice_oand first a1 _ F4 L1), I3;
               cbn [mc_oand_list]; rewrite S3, <- !app_assoc; cbn [List.app];
               rewrite (one_or_two _ (MObsOp OpAnd) _ _ _ (mc_oand_list_nonnil a1)); reflexivity|].
       split; [destruct I4 as [l [p Er]]; rewrite Er; exact I|].
-      split; [reflexivity|].
-      intros V. destruct (Vshape V) as [Ex [V1 V2]]. subst xs. rewrite (I5 eq_refl).
-      destruct (F6 V1) as [T1 [T2 _]]. destruct (S6 V2) as [T4 [T5 _]].
-      cbn [sem_oand sv_oand a_rt]. rewrite La5, La4, T1, T2, T4, T5. repeat split; reflexivity.
+      split; [reflexivity|]. split; [reflexivity|].
+      split.
+      * intros Cn. destruct (Cshape Cn) as [C1 [C2 Cs]]. apply I6; [exact Cs|].
+        cbn [sem_oand]. rewrite La5, (F7 C1), (S7 C2). reflexivity.
+      * intros V. destruct (Vshape V) as [Ex [V1 V2]]. subst xs. rewrite (I5 eq_refl).
+        cbn [sv_oand]. rewrite La4, (F8 V1), (S8 V2). reflexivity.
     + (* OR *)
       destruct (lift_oor first) as [a1|] eqn:L1; [|discriminate U].
       destruct (chain_oor a1 _) as [r|] eqn:C; [|discriminate U]. inversion U; subst u; clear U.
       cbn [chain_oor] in C. destruct (as_obs (unv x2)) as [c2|] eqn:E2; [|discriminate C].
       destruct (lift_oand c2) as [a2|] eqn:L2; [|discriminate C].
       apply as_obs_some in E2.
-      destruct (H2 _ E2 A2) as [S1 [S2 [S3 [S4 [S5 S6]]]]].
-      cbn [u_wf u_yield u_meaning u_inv u_sem u_sv u_rt] in S1, S2, S3, S4, S6.
+      destruct (H2 _ E2 A2) as [S1 [S2 [S3 [S4 [S5 [_ [S7 S8]]]]]]].
+      cbn [u_wf u_yield u_meaning u_inv u_sem u_sv] in S1, S2, S3, S4, S7, S8.
       destruct (lift_oor_facts first a1 F4 L1) as [La1 [La2 [La3 [La4 La5]]]].
       destruct (lift_oand_facts c2 a2 S4 L2) as [Lb1 [Lb2 [Lb3 [Lb4 Lb5]]]].
-      destruct (chain_oor_good xs a1 a2 r HFs As C) as [I1 [I2 [I3 [I4 I5]]]].
-      unfold Good. cbn [u_wf u_yield u_meaning u_inv u_level u_sem u_sv u_rt ao_wf ao_yield ao_meaning ao_sem ao_sv level pr obsop_tok].
+      destruct (chain_oor_good xs a1 a2 r HFs As C) as [I1 [I2 [I3 [I4 [I5 I6]]]]].
+      unfold Good. cbn [u_wf u_yield u_meaning u_inv u_level u_sem u_sv u_rt ao_wf ao_yield ao_meaning ao_sem ao_sv level PatternSyntax.pr obsop_tok a_rt].
       split; [apply I1; cbn [wf_oor]; rewrite La2, Lb2, F1, S1; reflexivity|].
       split; [rewrite I2, toks_pr_ops; cbn [yield_oor]; rewrite La1, Lb1, F2, S2; reflexivity|].
       split; [rewrite ma_cpd; cbn [map]; rewrite <- F3, (splice_oor first a1 _ F4 L1), I3;
               cbn [mc_oor_list]; rewrite Lb3, S3, <- !app_assoc; cbn [List.app];
               rewrite (one_or_two _ (MObsOp OpOr) _ _ _ (mc_oor_list_nonnil a1)); reflexivity|].
       split; [destruct I4 as [l [p Er]]; rewrite Er; exact I|].
-      split; [reflexivity|].
-      intros V. destruct (Vshape V) as [Ex [V1 V2]]. subst xs. rewrite (I5 eq_refl).
-      destruct (F6 V1) as [T1 [T2 _]]. destruct (S6 V2) as [T4 [T5 _]].
-      cbn [sem_oor sv_oor a_rt]. rewrite La5, La4, Lb5, Lb4, T1, T2, T4, T5. repeat split; reflexivity.
+      split; [reflexivity|]. split; [reflexivity|].
+      split.
+      * intros Cn. destruct (Cshape Cn) as [C1 [C2 Cs]]. apply I6; [exact Cs|].
+        cbn [sem_oor]. rewrite La5, Lb5, (F7 C1), (S7 C2). reflexivity.
+      * intros V. destruct (Vshape V) as [Ex [V1 V2]]. subst xs. rewrite (I5 eq_refl).
+        cbn [sv_oor]. rewrite La4, Lb4, (F8 V1), (S8 V2). reflexivity.
     + (* FOLLOWEDBY *)
       destruct (chain_fb (lift_fb first) _) as [r|] eqn:C; [|discriminate U]. inversion U; subst u; clear U.
       cbn [chain_fb] in C. destruct (as_obs (unv x2)) as [c2|] eqn:E2; [|discriminate C].
       destruct (lift_oor c2) as [a2|] eqn:L2; [|discriminate C].
       apply as_obs_some in E2.
-      destruct (H2 _ E2 A2) as [S1 [S2 [S3 [S4 [S5 S6]]]]].
-      cbn [u_wf u_yield u_meaning u_inv u_sem u_sv u_rt] in S1, S2, S3, S4, S6.
+      destruct (H2 _ E2 A2) as [S1 [S2 [S3 [S4 [S5 [_ [S7 S8]]]]]]].
+      cbn [u_wf u_yield u_meaning u_inv u_sem u_sv] in S1, S2, S3, S4, S7, S8.
       destruct (lift_fb_facts first F4) as [La1 [La2 [La3 [La4 La5]]]].
       destruct (lift_oor_facts c2 a2 S4 L2) as [Lb1 [Lb2 [Lb3 [Lb4 Lb5]]]].
-      destruct (chain_fb_good xs (lift_fb first) a2 r HFs As C) as [I1 [I2 [I3 [I4 I5]]]].
-      unfold Good. cbn [u_wf u_yield u_meaning u_inv u_level u_sem u_sv u_rt ao_wf ao_yield ao_meaning ao_sem ao_sv level pr obsop_tok].
+      destruct (chain_fb_good xs (lift_fb first) a2 r HFs As C) as [I1 [I2 [I3 [I4 [I5 I6]]]]].
+      unfold Good. cbn [u_wf u_yield u_meaning u_inv u_level u_sem u_sv u_rt ao_wf ao_yield ao_meaning ao_sem ao_sv level PatternSyntax.pr obsop_tok a_rt].
       split; [apply I1; cbn [wf_fb]; rewrite La2, Lb2, F1, S1; reflexivity|].
       split; [rewrite I2, toks_pr_ops; cbn [yield_fb]; rewrite La1, Lb1, F2, S2; reflexivity|].
       split; [rewrite ma_cpd; cbn [map]; rewrite <- F3, (splice_fb first _ F4), I3;
               cbn [mc_fb_list]; rewrite Lb3, S3, <- !app_assoc; cbn [List.app];
               rewrite (one_or_two _ (MObsOp OpFb) _ _ _ (mc_fb_list_nonnil (lift_fb first))); reflexivity|].
       split; [destruct I4 as [l [p Er]]; rewrite Er; exact I|].
-      split; [reflexivity|].
-      intros V. destruct (Vshape V) as [Ex [V1 V2]]. subst xs. rewrite (I5 eq_refl).
-      destruct (F6 V1) as [T1 [T2 _]]. destruct (S6 V2) as [T4 [T5 _]].
-      cbn [sem_fb sv_fb a_rt]. rewrite La5, La4, Lb5, Lb4, T1, T2, T4, T5. repeat split; reflexivity.
+      split; [reflexivity|]. split; [reflexivity|].
+      split.
+      * intros Cn. destruct (Cshape Cn) as [C1 [C2 Cs]]. apply I6; [exact Cs|].
+        cbn [sem_fb]. rewrite La5, Lb5, (F7 C1), (S7 C2). reflexivity.
+      * intros V. destruct (Vshape V) as [Ex [V1 V2]]. subst xs. rewrite (I5 eq_refl).
+        cbn [sv_fb]. rewrite La4, Lb4, (F8 V1), (S8 V2). reflexivity.
 Qed.
 
 Theorem unv_good : forall a, PGood a.
